@@ -24,7 +24,9 @@ ENGINE = {'name': 'throttle',
          '(after a real matcher round, partly consumed by an earlier read) which must come first; - with refill rates of 2^-20 B/s - the tokens taken from each limiter; non-trivial = some batch was clipped by a '
          'burst or the ledger was observed. (c) 16 (quick) / 48 (thorough) real-time runs in parallel goroutines: '
          'rates 1-200 kB/s, bursts 1-64 KiB or default, latency 0-200 ms, 1-8 connections sharing a total limit, reader buffers 1 B-64 KiB; these '
-         'are oracle-only (no Coq term); before them, on one P with the collector off, three rounds of: a connection cancelled during its '
+         '(every third inner connection, here and in a third of the read-size runs, also implements net.PacketConn, as layer4\'s UDP connections '
+         'do); they are oracle-only (no Coq term); before them six latency configurations (latency alone, with a total rate, with a total burst '
+         'only, with a burst only, with a rate, with every limit: first read not before the latency), and, on one P with the collector off, three rounds of: a connection cancelled during its '
          'latency wait, a pause longer than the latency, four new connections that must each wait the whole latency. distinct = distinct Coq terms',
  'trusted_base': ['math/big is used by the harness to convert TokensAt (float64) into integer model units exactly',
                   'time.Timer never fires early and time.Now is monotonic (the real-time check is one-sided: the observer reads its clock before '
